@@ -296,6 +296,16 @@ def run(check, repo, tier):
                 core_n += 1
     check.floor(core_n >= 300, f"C01: only {core_n} obligations decided for receiver GCodeCore (floor 300)")
     n1 = helper_forms(check, cr.program)
+    # the formatter contract this check relies on (a coordinate word is a faithful fixed-point rendering of the value):
+    # discharged here as well, by the formatter rules of C08
+    check.rule("R6", "formatter contract: number() renders its argument in fixed point at the configured precision behind a finiteness guard, "
+                     "parameters() sends every numeric value through number() (rules R2, R3, R4 of C08)")
+    from . import c08
+    from .c13 import _Remap
+    _rm = _Remap(check, {"R2": "R6", "R3": "R6", "R4": "R6"})
+    _rm.floor = lambda cond, message: check.floor(cond, message.replace("C08.", "C01<-C08."))
+    c08.check_number(_rm, cr.program)
+    c08.check_parameters(_rm, cr.program)
     check.analysed = dict(cr.stats, helper_paths=n1, gcodecore=core.stats)
     check.coverage["exhaustive"] = tier == "thorough"
     check.explanation = (
